@@ -222,3 +222,40 @@ def r13_d(ctx):
             rr.fail(Finding('R13.d', 'data', fd.qual, c, 'a regex match is reported with text %s at %s: not the matched '
                             'text at leaf position + match start' % (tdef, norm(p) if p is not None else None), line=c.lineno))
     return rr
+
+
+def r13_e(ctx):
+    """the text collected by a conditional scan starts at the position of its first item"""
+    repo = ctx.repo
+    buf = repo.need_cls('utils.Buffer')
+    fds = buf.methods.get('forward_until')
+    if not fds:
+        raise AnalysisError('Buffer.forward_until vanished')
+    fd = fds[-1]
+    rr = RuleResult('R13.e', 'the result of a conditional scan records the position of the first item it collects (not the '
+                    'buffer\'s own cursor index, which is a token index on token buffers)', floor=1)
+    se = SymEval(fd.node)
+    inits = [n for n in ast.walk(fd.node) if isinstance(n, ast.Call) and isinstance(n.func, ast.Attribute)
+             and 'init' in n.func.attr and norm(n.func.value) == 'self']
+    if not inits:
+        raise AnalysisError('forward_until: accumulator construction not found')
+    for c in inits:
+        p = c.args[1] if len(c.args) > 1 else None
+        ok = False
+        if p is not None:
+            for x in ast.walk(p):
+                if isinstance(x, ast.Attribute) and x.attr == 'position':
+                    base = x.value
+                    if isinstance(base, ast.Call) and norm(base) == 'self.peek()':
+                        ok = True
+                    elif isinstance(base, ast.Name) and se.definition_text(base.id) == 'self.peek()':
+                        ok = True
+            if any(norm(x) in ('self.position', 'self._Buffer__i') or (isinstance(x, ast.Attribute) and x.attr.endswith('__i'))
+                   for x in ast.walk(p)):
+                ok = False
+        rr.ob(ok, {'accumulator_position': norm(p) if p is not None else None})
+        if not ok:
+            rr.fail(Finding('R13.e', 'utils', fd.qual, c, 'the scan result starts at %s instead of the position of the first '
+                            'item: on a token buffer the body of a verbatim-like environment gets a token index as its '
+                            'source offset' % (norm(p) if p is not None else 'no position'), line=c.lineno))
+    return rr
